@@ -1,0 +1,44 @@
+//go:build verif
+
+// Contracts for the deductive verifier in /verif (govc). This file contains no code: with the
+// build tag off it is not part of the package, with it on it adds nothing to the build.
+package vauth
+
+//@ import sdk "github.com/cosmos/cosmos-sdk/types"
+//@ import abci "github.com/cometbft/cometbft/abci/types"
+//@ import codec "github.com/cosmos/cosmos-sdk/codec"
+//@ import json "encoding/json"
+//@ import proto "github.com/cosmos/gogoproto/proto"
+//@ import vauthtypes "github.com/EscanBE/evermint/v12/x/vauth/types"
+
+// ---------------------------------------------------------------------------------------------
+// module.go genesis (C18). The x/vauth view of a store layer is the set of stored ownership proofs
+//     vauthView(l) = { (a, record) | kvHas[vauthStore(l)][vauthProofKey(a)] }      (x/vauth/keeper contracts)
+// "ExportGenesis determines the view" means: the view can be read back from the exported document. The document is the
+// JSON of the EMPTY default genesis whatever the store holds (GenesisState has no fields), so it determines the view only
+// when no proof is stored: the clause vauth_export_determines_view FAILS on this tree — finding F8 (vauth part), replayed
+// (replay/misc/c18_vauth_genesis_replay_test.go.txt). InitGenesis ignores its input and writes nothing.
+// ---------------------------------------------------------------------------------------------
+// JSON document of a vauth GenesisState (it has no fields: one constant document)
+//@ ghost func vauthGenesisJson() bytes
+
+// codec.ProtoCodec.MustMarshalJSON on the vauth genesis type — trusted summary
+//@ func (c codec.JSONCodec) MustMarshalJSON(o proto.Message) (bz []byte)
+//@   assumed
+//@   requires typeof(o) == type(*vauthtypes.GenesisState)
+//@   modifies nothing
+//@   ensures base(bz) != 0 && fresh(base(bz)) && bytes(bz) == vauthGenesisJson()
+//@   panics never
+
+//@ func (am AppModule) ExportGenesis(ctx sdk.Context, cdc codec.JSONCodec) (raw json.RawMessage)
+//@   requires cdc != nil
+//@   modifies nothing
+//@   ensures[C18.vauth_export_is_constant] bytes(raw) == vauthGenesisJson()
+//@   ensures[C18.vauth_export_determines_view] forall a bytes :: !kvHas[kvId(layer(ctx), payload(am.keeper.storeKey))][vauthProofKey(a)]
+//@   panics[C18.vauth_export_never_panics] never
+
+//@ func (am AppModule) InitGenesis(ctx sdk.Context, cdc codec.JSONCodec, raw json.RawMessage) (updates []abci.ValidatorUpdate)
+//@   modifies nothing
+//@   ensures[C18.vauth_init_restores_empty_view] (bytes(raw) == vauthGenesisJson() && (forall a bytes :: !old(kvHas[kvId(layer(ctx), payload(am.keeper.storeKey))][vauthProofKey(a)]))) ==> (forall a bytes :: !kvHas[kvId(layer(ctx), payload(am.keeper.storeKey))][vauthProofKey(a)])
+//@   ensures[C18.vauth_init_no_validator_updates] len(updates) == 0
+//@   panics[C18.vauth_init_never_panics] never
